@@ -573,6 +573,7 @@ func famHeap(dir string, seed int64, tier string) {
 			w.add(fmt.Sprintf("HeapCase %s %s %s", g.coq(), g.root.coq(), obs), desc, len(g.cells) >= 2)
 		}
 	}
+	apiVeryLongChain(rep, "C18")
 	// cycles and chains through slices / maps of ARRAYS (Go-side oracles only: arrays are not in the heap model)
 	for _, n := range []int{1, 2, 3, 1001} {
 		for _, cyclic := range []bool{false, true} {
